@@ -595,10 +595,21 @@ def _path_c(b, src, dst, blocked, keys, edge_ok=None):
         return st
     if isinstance(src, int):
         src = [src]
+    # only nodes from which dst can still be reached matter (backward slice, cached)
+    bw = getattr(b, '_bw_cache', None)
+    if bw is None:
+        bw = b._bw_cache = {}
+    bkey = (dst, frozenset(blocked), edge_ok)
+    if bkey not in bw:
+        if edge_ok is None:
+            bw[bkey] = g.reachable_from(dst, blocked=blocked, forward=False)
+        else:
+            bw[bkey] = g.reachable_from(dst, blocked=blocked, forward=False, labels=edge_ok)
+    can_reach = bw[bkey]
     prev = {}
     queue = []
     for s0 in src:
-        if s0 in blocked:
+        if s0 in blocked or s0 not in can_reach:
             continue
         st0 = step(frozenset(), s0)
         if st0 is None:
@@ -619,7 +630,7 @@ def _path_c(b, src, dst, blocked, keys, edge_ok=None):
                 cur = prev[cur]
             return out[::-1]
         for t, l in g.succ[x]:
-            if t in blocked:
+            if t in blocked or t not in can_reach:
                 continue
             if edge_ok is not None and not edge_ok(l):
                 continue
